@@ -191,7 +191,8 @@ def gen_values(decl, seed):
     for i, (t, n) in enumerate(decl.args):
         h = int(hashlib.sha256(("%s/%d/%d" % (decl.mcv, seed, i)).encode()).hexdigest()[:16], 16)
         if t == "str":
-            vals.append(["label", "a b", "x%dy" % h, "", "weird %s %%"][h % 5] if seed else "label")
+            # (by seed, so that the quick tier's three seeds include the empty string)
+            vals.append(["label", "a b", "", "weird %s %%", "x%dy" % h][seed % 5] if seed else "label")
         else:
             lo, hi = RANGE[t]
             pick = [0, 1, lo, hi, lo + h % (hi - lo + 1), h % 1000][(h >> 8) % 6] if seed else (h % 100)
@@ -262,6 +263,14 @@ def run_listed(case, ctx):
     evs.append(T.plain("OHe", clk + 5))
     s = {"loom": "n.0", "pid": 1, "tid": 1, "app": 1, "cpus": numbering, "require": req, "events": evs,
          "extra": extra}
+    bystanders = []
+    if case["seed"] % 2 == 1 and case.get("repeat", 1) == 1:
+        # other threads of the process that do not use (nor require) the model: one sorting
+        # before and one after the thread under test
+        s["pid"] = 3
+        for bpid, btid in ((2, 7), (3, 10)):
+            bystanders.append({"loom": "n.0", "pid": bpid, "tid": btid, "app": 1, "require": {"ovni": models["O"][1]},
+                               "events": [T.OHx(90, -1), T.plain("OHe", clk + 50)]})
     if case.get("repeat", 1) > 1:
         # the same legal use many times over: asserted when the reference model says that the
         # repetition itself is legal (creating the same task twice, say, is not)
@@ -269,7 +278,7 @@ def run_listed(case, ctx):
             return {"discard": True, "cls": ["repetition-not-legal"]}
     dd = ctx.newdir()
     try:
-        T.write_trace({"streams": [s]}, dd)
+        T.write_trace({"streams": [s] + bystanders}, dd)
         r = tools.emu(b, dd, ("-l",))
         if not r.ok:
             raise Violation("listed event %s rejected in its legal context %s%s: %s" % (
